@@ -116,6 +116,22 @@ pub fn post_process(model: &str, vars: &[(String, String)]) -> String {
             }
         }
     }
+    // (F20) a marker follows the URL: the ambiguity check on the parsed URL's text comes first
+    let mut then = then;
+    let owned;
+    if let Some(rest) = then.strip_prefix("urlendsok ") {
+        let shown = url.as_ref().map(|u| u.1.clone()).unwrap_or_default();
+        let (alts, ok) = rest.split_once(" else:").unwrap_or((rest, ""));
+        for alt in alts.split(' ') {
+            let p: Vec<&str> = alt.split(':').collect();
+            let ch = char::from_u32(p[0].parse().unwrap()).unwrap();
+            if shown.ends_with(ch) {
+                return format!("err {} {} {}", p[1], p[2], p[3]);
+            }
+        }
+        owned = ok.to_string();
+        then = &owned;
+    }
     if let Some(rest) = then.strip_prefix("ok ") {
         // name=… extras=… kind=… marker=… w=…
         let kind_pos = rest.find(" kind=").unwrap();
@@ -283,7 +299,9 @@ pub fn gen_deriv(rng: &mut Rng, p: &Pools) -> Deriv {
     let extras = ["security", "tests", "A_b", "x.y", "dev", "E-e"];
     let specs = [">=2.8.1", "==2.8.*", "~=1.0", "!=1.5", "<2", ">1.0.post1", "<= 3.0", "== 1.0", ">=1.0a1", "===1.0", "!=2.*", ">= 1"];
     let urls = ["https://example.org/foo-1.0.whl", "file:///tmp/x.tar.gz", "git+https://github.com/a/b.git@main#egg=b", "https://x.org/a;b", "https://x.org/a#frag",
-        "https://x.org/${VP_HOME_DIR}/a", "https://x.org/a%20b", "http://localhost:8080/p?q=1&r=[2]", "https://x.org/${VP_UNSET}/a", "https://user:pw@x.org/a@b"];
+        "https://x.org/${VP_HOME_DIR}/a", "https://x.org/a%20b", "http://localhost:8080/p?q=1&r=[2]", "https://x.org/${VP_UNSET}/a", "https://user:pw@x.org/a@b",
+        // the parsed URL ends in `;` / `#` although the text does not (F20)
+        "https://x.org/a;${VP_EMPTY}", "https://x.org/a#${VP_EMPTY}", "https://x.org/a;\u{1}", "https://x.org/b#\u{1f}", "https://x.org/${VP_TOKEN_1}"];
     let name = rng.pick(&names).to_string();
     let ex = if rng.chance(1, 2) { None } else { let n = rng.below(3); Some((0..n).map(|_| rng.pick(&extras).to_string()).collect()) };
     let (sp, url) = match rng.below(4) {
@@ -331,7 +349,7 @@ fn norm_name(s: &str) -> String {
 }
 
 pub fn default_vars() -> Vec<(String, String)> {
-    vec![("VP_HOME_DIR".into(), "home/ferris".into()), ("VP_EMPTY".into(), "".into())]
+    vec![("VP_HOME_DIR".into(), "home/ferris".into()), ("VP_EMPTY".into(), "".into()), ("VP_TOKEN_1".into(), "t#".into())]
 }
 
 pub fn run(out: &mut Out, tier: &str, seed: u64, prop: &str) {
@@ -349,7 +367,19 @@ pub fn run(out: &mut Out, tier: &str, seed: u64, prop: &str) {
         let ans = req_case(out, &mut w, &mut rc, prop, &text, &vars);
         if prop == "C07" {
             let input = serde_json::json!({"text": text});
-            if !ans.starts_with("ok ") {
+            // a URL whose parsed form ends in `;` / `#` followed by a marker is the ambiguous case the
+            // grammar reading excludes (C18): rejected by design (F20), not a derivation
+            let ambiguous = d.marker.is_some() && d.url.as_ref().is_some_and(|u| {
+                apply_env(&vars);
+                let e = pep508_rs::expand_env_vars(u).to_string();
+                let t = e.trim_end_matches(|c: char| c <= ' ');
+                t.ends_with(';') || t.ends_with('#')
+            });
+            if ambiguous {
+                out.stat("c07.ambiguous_url_end_with_marker");
+                if ans.starts_with("ok ") { out.oracle_fail("C18", "a URL whose parsed form ends in `;` / `#` is followed by a marker and accepted: its Display cannot be parsed back", input.clone()); }
+                continue;
+            } else if !ans.starts_with("ok ") {
                 out.oracle_fail("C07", &format!("a string derivable from the PEP 508 grammar is rejected: {ans}"), input.clone());
                 continue;
             }
@@ -375,7 +405,8 @@ pub fn run(out: &mut Out, tier: &str, seed: u64, prop: &str) {
             // changing only optional whitespace never changes the result
             if let Some(text2) = render(&mut rng, &d) {
                 let ans2 = req_case(out, &mut w, &mut rc, prop, &text2, &vars);
-                let strip = |a: &str| a.rsplit_once(" w=").map(|x| x.0.to_string()).unwrap_or(a.to_string());
+                // errors: same kind (spans move with the layout)
+                let strip = |a: &str| if a.starts_with("err ") { a.split(' ').take(2).collect::<Vec<_>>().join(" ") } else { a.rsplit_once(" w=").map(|x| x.0.to_string()).unwrap_or(a.to_string()) };
                 if strip(&ans2) != strip(&ans) {
                     out.oracle_fail("C07", "two whitespace layouts of one derivation parse differently", serde_json::json!({"text": text, "text2": text2, "a": ans, "b": ans2}));
                 }
